@@ -35,7 +35,9 @@ static void h_init(void) {
 }
 static char *h_line = 0; static size_t h_cap = 0;
 static int h_getline(void) {
-    ssize_t n = getline(&h_line, &h_cap, stdin);
+    ssize_t n;
+    alarm(30); /* per-operation watchdog: a hang is a result (reported as a crash of this line) */
+    n = getline(&h_line, &h_cap, stdin);
     if (n < 0) return 0;
     while (n > 0 && (h_line[n-1] == '\n' || h_line[n-1] == '\r')) h_line[--n] = 0;
     return 1;
